@@ -49,8 +49,57 @@ theorem Pool.getD {I l e} (h : Pool I l e) (n : Nat) : l.getD n e ∈ I := by
     rw [this]; exact h.mem _ (List.getElem_mem hlt)
   · rw [he]; exact h.eof
 
+theorem Pool.drop {I l e} (h : Pool I l e) (k : Nat) : Pool I (l.drop k) e :=
+  ⟨fun t ht => h.mem t (List.mem_of_mem_drop ht), h.eof⟩
+
 theorem Pool.pos_headD {I l e} (h : Pool I l e) : Pos I (l.headD e) := Pos.of_mem h.headD
 theorem Pool.pos_getD {I l e} (h : Pool I l e) (n : Nat) : Pos I (l.getD n e) := Pos.of_mem (h.getD n)
+
+/-- Everything a pool gives, as rewrite rules for `simp` (window positions written with `drop`). -/
+theorem Pool.facts {I l e} (h : Pool I l e) :
+    (Pool I l e ↔ True) ∧ (Pos I (l.headD e) ↔ True) ∧ (∀ n, Pos I (l.getD n e) ↔ True) ∧
+    (∀ k, Pool I (l.drop k) e ↔ True) ∧ (∀ k, Pos I ((l.drop k).headD e) ↔ True) ∧
+    (∀ k n, Pos I ((l.drop k).getD n e) ↔ True) ∧
+    (l.headD e ∈ I ↔ True) ∧ (∀ n, l.getD n e ∈ I ↔ True) ∧
+    (∀ k, (l.drop k).headD e ∈ I ↔ True) ∧ (∀ k n, (l.drop k).getD n e ∈ I ↔ True) :=
+  ⟨iff_true_intro h, iff_true_intro h.pos_headD, fun n => iff_true_intro (h.pos_getD n),
+   fun k => iff_true_intro (h.drop k), fun k => iff_true_intro (h.drop k).pos_headD,
+   fun k n => iff_true_intro ((h.drop k).pos_getD n),
+   iff_true_intro h.headD, fun n => iff_true_intro (h.getD n),
+   fun k => iff_true_intro (h.drop k).headD, fun k n => iff_true_intro ((h.drop k).getD n)⟩
+
+/-- All tokens of a list stand at input positions. -/
+def AllPos (I : List Tok) (l : List Tok) : Prop := ∀ t ∈ l, Pos I t
+
+theorem AllPos_nil (I : List Tok) : AllPos I [] ↔ True :=
+  iff_true_intro (fun _ h => absurd h List.not_mem_nil)
+theorem AllPos_append (I : List Tok) (a b : List Tok) : AllPos I (a ++ b) ↔ AllPos I a ∧ AllPos I b := by
+  simp only [AllPos, List.mem_append]
+  exact ⟨fun h => ⟨fun t ht => h t (Or.inl ht), fun t ht => h t (Or.inr ht)⟩,
+    fun h t ht => ht.elim (h.1 t) (h.2 t)⟩
+theorem AllPos_cons (I : List Tok) (a : Tok) (b : List Tok) : AllPos I (a :: b) ↔ Pos I a ∧ AllPos I b := by
+  simp only [AllPos, List.mem_cons]
+  exact ⟨fun h => ⟨h a (Or.inl rfl), fun t ht => h t (Or.inr ht)⟩,
+    fun h t ht => ht.elim (fun e => e ▸ h.1) (h.2 t)⟩
+theorem AllPos_replicate (I : List Tok) (n : Nat) (c : Tok) (h : Pos I c) : AllPos I (List.replicate n c) ↔ True :=
+  iff_true_intro (fun t ht => (List.eq_of_mem_replicate ht) ▸ h)
+
+/-- Every entry of a poryswitch case table satisfies `P`. -/
+def CasesOK {α} (P : α → Prop) (cs : List (String × α)) : Prop := ∀ e ∈ cs, P e.2
+
+theorem CasesOK_nil {α} (P : α → Prop) : CasesOK P [] ↔ True :=
+  iff_true_intro (fun _ h => absurd h List.not_mem_nil)
+theorem CasesOK_cons {α} (P : α → Prop) (k : String) (v : α) (cs : List (String × α)) :
+    CasesOK P ((k, v) :: cs) ↔ P v ∧ CasesOK P cs := by
+  simp only [CasesOK, List.mem_cons]
+  exact ⟨fun h => ⟨h (k, v) (Or.inl rfl), fun e he => h e (Or.inr he)⟩,
+    fun h e he => he.elim (fun x => x ▸ h.1) (h.2 e)⟩
+theorem CasesOK.lookup {α} {P : α → Prop} {cs : List (String × α)} {k : String} {v : α}
+    (h : CasesOK P cs) (hl : cs.lookup k = some v) : P v := h _ (lookup_mem hl)
+theorem CasesOK.select {α} {P : α → Prop} {env : Env} {cs : List (String × α)} {k : String} {v : α}
+    (h : CasesOK P cs) (hl : selectCase env cs k = some v) : P v := by
+  obtain ⟨key, hm⟩ := selectCase_mem hl
+  exact h _ hm
 
 /-- Tokens stored in the parser state. -/
 structure Stored (I : List Tok) (s : PState) : Prop where
@@ -101,6 +150,24 @@ theorem ImpOK.addMovement {I : List Tok} {d : ImpData} (hd : ImpOK I d) {x : Imp
   · exact hd.2 y h
   · rw [List.mem_singleton] at h; subst h; exact ⟨h1, h2⟩
 
+theorem ImpOK_empty (I : List Tok) : ImpOK I {} ↔ True := iff_true_intro (ImpOK.empty I)
+theorem ImpOK_mk_nil (I : List Tok) : ImpOK I { texts := [], movements := [] } ↔ True :=
+  iff_true_intro (ImpOK.empty I)
+theorem ImpOK_add (I : List Tok) (a b : ImpData) : ImpOK I (a.add b) ↔ ImpOK I a ∧ ImpOK I b := by
+  refine ⟨fun h => ⟨⟨fun x hx => h.1 x (List.mem_append.2 (Or.inl hx)),
+      fun m hm => h.2 m (List.mem_append.2 (Or.inl hm))⟩,
+    ⟨fun x hx => h.1 x (List.mem_append.2 (Or.inr hx)), fun m hm => h.2 m (List.mem_append.2 (Or.inr hm))⟩⟩,
+    fun h => h.1.add h.2⟩
+theorem ImpOK_addText (I : List Tok) (d : ImpData) (x : ImpText) :
+    ImpOK I { texts := d.texts ++ [x], movements := d.movements } ↔ ImpOK I d ∧ Pos I x.text :=
+  ⟨fun h => ⟨⟨fun y hy => h.1 y (List.mem_append.2 (Or.inl hy)), h.2⟩,
+    h.1 x (List.mem_append.2 (Or.inr (List.mem_singleton.2 rfl)))⟩, fun h => h.1.addText h.2⟩
+theorem ImpOK_addMovement (I : List Tok) (d : ImpData) (x : ImpMovement) :
+    ImpOK I { texts := d.texts, movements := d.movements ++ [x] } ↔
+      ImpOK I d ∧ Pos I x.cmdTok ∧ AllPos I x.movements :=
+  ⟨fun h => ⟨⟨h.1, fun y hy => h.2 y (List.mem_append.2 (Or.inl hy))⟩,
+    h.2 x (List.mem_append.2 (Or.inr (List.mem_singleton.2 rfl)))⟩, fun h => h.1.addMovement h.2.1 h.2.2⟩
+
 /-- From `Inv I`, a successful run re-establishes `Inv I` and returns a result satisfying `R`. -/
 def Prov {α} (I : List Tok) (m : PM α) (R : α → Prop) : Prop :=
   ∀ s, Inv I s → wp m s (fun r s' => Inv I s' ∧ R r)
@@ -118,9 +185,11 @@ theorem Prov.mono {α} {I : List Tok} {m : PM α} {R R' : α → Prop} (h : Prov
 syntax "psimp" (" [" Lean.Parser.Tactic.simpLemma,* "]")? : tactic
 macro_rules
   | `(tactic| psimp) => `(tactic| swp [Inv, Stored_upd, Stored_setSid, Stored_setB, Stored_setC, Pos_lit,
-      Pos_type_lit, ite_iff_and, true_implies, false_implies, not_false_eq_true, not_true_eq_false])
+      Pos_type_lit, AllPos_nil, AllPos_append, AllPos_cons, CasesOK_nil, CasesOK_cons, ImpOK_empty, ImpOK_mk_nil, ImpOK_add, ImpOK_addText,
+      ImpOK_addMovement, ← List.drop_one, List.drop_drop, ite_iff_and, true_implies, false_implies, not_false_eq_true, not_true_eq_false])
   | `(tactic| psimp [$ts,*]) => `(tactic| swp [Inv, Stored_upd, Stored_setSid, Stored_setB, Stored_setC,
-      Pos_lit, Pos_type_lit, ite_iff_and, true_implies, false_implies, not_false_eq_true, not_true_eq_false,
+      Pos_lit, Pos_type_lit, AllPos_nil, AllPos_append, AllPos_cons, CasesOK_nil, CasesOK_cons, ImpOK_empty, ImpOK_mk_nil, ImpOK_add,
+      ImpOK_addText, ImpOK_addMovement, ← List.drop_one, List.drop_drop, ite_iff_and, true_implies, false_implies, not_false_eq_true, not_true_eq_false,
       $ts,*])
 
 /-- Break a verification condition into its leaves. -/
@@ -128,5 +197,130 @@ syntax "pvc" (" [" Lean.Parser.Tactic.simpLemma,* "]")? : tactic
 macro_rules
   | `(tactic| pvc) => `(tactic| repeat' (first | (exact True.intro) | (apply And.intro) | (with_reducible intro _) | (psimp) | (split)))
   | `(tactic| pvc [$ts,*]) => `(tactic| repeat' (first | (exact True.intro) | (apply And.intro) | (with_reducible intro _) | (psimp [$ts,*]) | (split)))
+
+/-- Close a leaf. -/
+syntax "pfin" (" [" Lean.Parser.Tactic.grindParam,* "]")? : tactic
+macro_rules
+  | `(tactic| pfin) => `(tactic| grind [Pool.tail, Pool.pos_headD, Pool.pos_getD, Pool.headD, Pool.getD, Pool.drop,
+      Pos.of_mem, AllPos_replicate, CasesOK.lookup, CasesOK.select])
+  | `(tactic| pfin [$ts,*]) => `(tactic| grind [Pool.tail, Pool.pos_headD, Pool.pos_getD, Pool.headD, Pool.getD,
+      Pool.drop, Pos.of_mem, AllPos_replicate, CasesOK.lookup, CasesOK.select, $ts,*])
+
+/-! ### below the statement level -/
+
+theorem prov_parseScopeModifier (I : List Tok) (d : TT) : Prov I (parseScopeModifier d) (fun _ => True) := by
+  intro s hi
+  obtain ⟨hp, hs⟩ := hi
+  have hf := hp.facts
+  have hs' := iff_true_intro hs
+  unfold parseScopeModifier
+  pvc [hf, hs']
+
+theorem prov_parsePoryswitchHeader (I : List Tok) (env : Env) :
+    Prov I (parsePoryswitchHeader env) (fun _ => True) := by
+  intro s hi
+  obtain ⟨hp, hs⟩ := hi
+  have hf := hp.facts
+  have hs' := iff_true_intro hs
+  unfold parsePoryswitchHeader
+  pvc [hf, hs']
+
+theorem prov_formatNamedParams (I : List Tok) :
+    ∀ (n : Nat) (fp : FmtParams), Prov I (formatNamedParams n fp) (fun _ => True) := by
+  intro n
+  induction n with
+  | zero => intro fp s hi; rw [formatNamedParams]; wpsimp
+  | succ n ih =>
+    intro fp s hi
+    obtain ⟨hp, hs⟩ := hi
+    have hf := hp.facts
+    have hs' := iff_true_intro hs
+    rw [formatNamedParams]
+    pvc [(ih _).wp_iff, hf, hs']
+    all_goals pfin
+
+theorem prov_parseFormatStringOperator (I : List Tok) (env : Env) (n : Nat) :
+    Prov I (parseFormatStringOperator env n) (fun r => Pos I r.1) := by
+  intro s hi
+  obtain ⟨hp, hs⟩ := hi
+  have hf := hp.facts
+  have hs' := iff_true_intro hs
+  unfold parseFormatStringOperator
+  pvc [(prov_formatNamedParams I _ _).wp_iff, wp_fmtMatch, hf, hs']
+  all_goals pfin
+
+theorem prov_parseTextValue (I : List Tok) (env : Env) (n : Nat) :
+    Prov I (parseTextValue env n) (fun _ => True) := by
+  intro s hi
+  obtain ⟨hp, hs⟩ := hi
+  have hf := hp.facts
+  have hs' := iff_true_intro hs
+  unfold parseTextValue
+  pvc [(prov_parseFormatStringOperator I _ _).wp_iff, hf, hs']
+  all_goals pfin
+
+theorem prov_poryswitchTextCases (I : List Tok) (env : Env) (tok : Tok) :
+    ∀ (n : Nat) (acc : List (String × String × String)),
+      Prov I (poryswitchTextCases env tok n acc) (fun _ => True) := by
+  intro n
+  induction n with
+  | zero => intro acc s hi; rw [poryswitchTextCases]; wpsimp
+  | succ n ih =>
+    intro acc s hi
+    obtain ⟨hp, hs⟩ := hi
+    have hf := hp.facts
+    have hs' := iff_true_intro hs
+    rw [poryswitchTextCases]
+    pvc [(ih _).wp_iff, (prov_parseTextValue I _ _).wp_iff, hf, hs']
+    all_goals pfin
+
+theorem prov_parsePoryswitchTextStatement (I : List Tok) (env : Env) (n : Nat) :
+    Prov I (parsePoryswitchTextStatement env n) (fun _ => True) := by
+  intro s hi
+  obtain ⟨hp, hs⟩ := hi
+  have hf := hp.facts
+  have hs' := iff_true_intro hs
+  unfold parsePoryswitchTextStatement
+  pvc [(prov_parsePoryswitchHeader I _).wp_iff, (prov_poryswitchTextCases I _ _ _ _).wp_iff, hf, hs']
+  all_goals pfin
+
+/-! ### movement / mart lists -/
+
+theorem prov_listBlock (I : List Tok) (env : Env) : ∀ n : Nat,
+    (∀ kind am acc, Prov I (parseListValue env kind am n acc) (fun r => AllPos I acc → AllPos I r)) ∧
+    (∀ kind, Prov I (parsePoryswitchListStatement env kind n) (fun r => AllPos I r)) ∧
+    (∀ kind tok acc, Prov I (parsePoryswitchListCases env kind tok n acc)
+      (fun r => CasesOK (AllPos I) acc → CasesOK (AllPos I) r)) := by
+  intro n
+  induction n with
+  | zero =>
+    refine ⟨?_, ?_, ?_⟩
+    · intro kind am acc s hi; rw [parseListValue]; wpsimp
+    · intro kind s hi; rw [parsePoryswitchListStatement]; wpsimp
+    · intro kind tok acc s hi; rw [parsePoryswitchListCases]; wpsimp
+  | succ n ih =>
+    obtain ⟨ih1, ih2, ih3⟩ := ih
+    refine ⟨?_, ?_, ?_⟩
+    · intro kind am acc s hi
+      obtain ⟨hp, hs⟩ := hi
+      have hf := hp.facts
+      have hs' := iff_true_intro hs
+      rw [parseListValue]
+      cases kind <;> pvc [(ih1 _ _ _).wp_iff, (ih2 _).wp_iff, hf, hs']
+      all_goals pfin
+    · intro kind s hi
+      obtain ⟨hp, hs⟩ := hi
+      have hf := hp.facts
+      have hs' := iff_true_intro hs
+      rw [parsePoryswitchListStatement]
+      pvc [(ih3 _ _ _).wp_iff, (prov_parsePoryswitchHeader I _).wp_iff, hf, hs']
+      all_goals pfin
+    · intro kind tok acc s hi
+      obtain ⟨hp, hs⟩ := hi
+      have hf := hp.facts
+      have hs' := iff_true_intro hs
+      rw [parsePoryswitchListCases]
+      pvc [(ih1 _ _ _).wp_iff, (ih3 _ _ _).wp_iff, hf, hs']
+      all_goals pfin
 
 end Pory.Parser
